@@ -263,3 +263,13 @@ def finding_signature(case, obs):
 
 def mutate_case(rng, case):
     return gen_raw(rng)
+
+CLAIMED = True
+LEVEL_TEXT = ("Theorems (all graphs, registries, flag sets): the lint model raises ValueError iff the documented rule list is violated, "
+              "and has no other outcome; the type tables the model runs on are regenerated from utils.py/circuit.py on every run and "
+              "proved equal to the documented ones. The model is tied to utils.lint by correspondence on generated raw graphs; the "
+              "'library outputs are lint-clean' clause is decided by the Coq specification on what each library function returned.")
+LEVEL_NOTE = ("Trusted: Coq kernel + vm_compute, std++, translator shapes for utils.lint (rule guards compared textually, fail closed), "
+              "harness canonicalisation. The second clause (outputs of library functions) is proof-level only where the producing "
+              "transform has its own theorem (C05, C10, C13 ...); here it is validated on generated inputs.")
+TECHNIQUE = "Coq proof (lint model <-> documented rules) + regenerated tables + vm_compute correspondence"
